@@ -91,6 +91,17 @@ def sval (iface : Bool) (streams : Bool) : SVal := if iface then .int Spec.nilCo
 
 def isStreamMap (m : List (Int × SVal)) : Bool := m.any (fun kv => match kv.2 with | .list _ => true | .nil => true | _ => false)
 
+/-- the sequence a stream-set value denotes (a nil pointer / nil interface works as the empty stream) -/
+def svalList : SVal → List Int
+  | .list l => l
+  | _ => []
+
+/-- the non-empty stream stored under `k`, if any -/
+def nonEmptyList (m : List (Int × SVal)) (k : Int) : Option (List Int) :=
+  match (Spec.lookup k m : Option SVal) with
+  | some (.list l) => if l.isEmpty then none else some l
+  | _ => none
+
 /-- expected contents of the collection created by a non-mutating operation, when the oracle computes it
     (`none`: not computed — persistence is still checked) -/
 def expectNew (iface : Bool) (d : List (String × SV)) : Op → Option SV
@@ -151,10 +162,34 @@ def expectNew (iface : Bool) (d : List (String × SV)) : Op → Option SV
       let x ← mapArg d a
       let streams := m.startsWith "t"
       match k with
-      | .union => if streams then none else some (.map (Spec.sortByKey (if x.isEmpty then mm else Spec.merge mm x)))
-      | .inter => if streams then none else some (.map (if x.isEmpty then [] else Spec.interByKey mm x))
+      | .union =>
+        if !streams then some (.map (Spec.sortByKey (if x.isEmpty then mm else Spec.merge mm x)))
+        else if x.isEmpty then some (.map mm)
+        else
+          -- by key: keys of either operand; where both hold the key and the argument's stream is non-empty the
+          -- receiver's stream extended by it, otherwise `Merge` (the argument's entry wins)
+          some (.map (Spec.sortByKey ((Spec.merge mm x).map (fun kv =>
+            match Spec.lookup kv.1 mm, nonEmptyList x kv.1 with
+            | some v, some l2 => (kv.1, SVal.list (svalList v ++ l2))
+            | _, _ => kv))))
+      | .inter =>
+        if !streams then some (.map (if x.isEmpty then [] else Spec.interByKey mm x))
+        else if x.isEmpty then some (.map [])
+        else
+          -- common keys; per key the intersection of the two streams (receiver's stream kept as it is when
+          -- the argument's stream is nil/empty)
+          some (.map ((Spec.interByKey mm x).map (fun kv => match nonEmptyList x kv.1 with
+            | some l2 => (kv.1, SVal.list (Spec.inter (svalList kv.2) l2))
+            | none => kv)))
       | .minus => some (.map (Spec.minusByKey mm x))
-      | .minusStreams => none
+      | .minusStreams =>
+        if !streams then none
+        else if x.isEmpty then some (.map [])
+        else
+          -- keys unchanged; per key the receiver's stream minus the argument's
+          some (.map (mm.map (fun kv => match nonEmptyList x kv.1 with
+            | some l2 => (kv.1, SVal.list (Spec.minus (svalList kv.2) l2))
+            | none => kv)))
   | .tget _ t k => do
       let mm ← mapOf d t
       match (Spec.lookup k mm : Option SVal) with
@@ -182,26 +217,46 @@ def expectObs (iface : Bool) (d : List (String × SV)) : Op → Option String
       some (showBool (if sup then Spec.isSubsetByKey y x else Spec.isSubsetByKey x y))
   | _ => none
 
-/-- documented may-share edges an operation creates between its result and its operands -/
-def shareEdges (iface : Bool) : Op → List (String × String)
-  | .sub d s _ _ => [(d, s)]
-  | .sfrom d a => [(d, a)]
-  | .s1 d s (.rmitem _) => [(d, s)]
-  | .s1 d s (.remove _) => [(d, s)]
-  | .sminus d s _ => [(d, s)]
-  | .extend d s _ => [(d, s)]
-  | .concat d s _ => [(d, s)]
-  | .tfromMap d kvs => kvs.filterMap (fun kv => kv.2.map (fun n => (d, n)))
-  | .m1 d m (.add _) => [(d, m)]
-  | .m1 d m (.rmkeys _) => [(d, m)]
-  | .m1 d m (.rmvals _) => [(d, m)]
-  | .m1 d m (.mapkey _) => if m.startsWith "t" then [(d, m)] else []
-  | .m2 d m a .union => (d, m) :: (match a with | some x => if m.startsWith "t" then [(d, x)] else [] | none => [])
-  | .m2 d m _ .inter => if m.startsWith "t" then [(d, m)] else []
-  | .m2 d m _ .minus => [(d, m)]
-  | .tset t _ (some s) => [(t, s)]
-  | .tget d t _ => [(d, t)]
-  | _ => if iface then [] else []
+/-- Documented may-share edges an operation creates between its result and its operands, decided on the
+    contents printed BEFORE the operation (`d`).  The flag says whether the edge is an *identity* edge — the
+    result may BE the operand (same object / same storage: `Minus(empty)`, `RemoveItem()`, `Concat()`,
+    `Extend()`, generic `Remove(out of range)`, `Add()`/`RemoveKeys()`/`RemoveValues()`/`Union(empty)`/
+    `Minus(empty)` return their receiver; a sub-slice / a stream built from a slice shares its storage) — or
+    only a *containment* edge (a stream set and the streams stored in it; two stream sets holding the same
+    stream pointers).  With NON-empty arguments / an in-range index the definition prescribes a NEW
+    collection: no edge, so a later mutation of the receiver showing through the result (or vice versa) is a
+    violation.  Storage mutators (caller write, interface{} `Remove`) propagate over all edges, map mutators
+    (`Set`) over identity edges only. -/
+def shareEdges (iface : Bool) (d : List (String × SV)) : Op → List (String × String × Bool)
+  | .sub r s _ _ => [(r, s, true)]
+  | .sfrom r a => [(r, a, true)]
+  | .s1 r s (.rmitem vs) => if vs.isEmpty then [(r, s, true)] else []
+  | .s1 r s (.remove i) =>
+      if iface then [(r, s, true)]
+      else match listOf d s with
+        | some l => if 0 ≤ i ∧ i < l.length then [] else [(r, s, true)]
+        | none => [(r, s, true)]
+  | .sminus r s a => match listArg d a with
+      | some x => if x.isEmpty then [(r, s, true)] else []
+      | none => [(r, s, true)]
+  | .extend r s args => if args.isEmpty then [(r, s, true)] else []
+  | .concat r s args => if args.isEmpty then [(r, s, true)] else []
+  | .tfromMap r kvs => kvs.filterMap (fun kv => kv.2.map (fun n => (r, n, false)))
+  | .m1 r m (.add vs) => if vs.isEmpty then [(r, m, true)] else if m.startsWith "t" then [(r, m, false)] else []
+  | .m1 r m (.rmkeys vs) => if vs.isEmpty then [(r, m, true)] else if m.startsWith "t" then [(r, m, false)] else []
+  | .m1 r m (.rmvals vs) => if vs.isEmpty then [(r, m, true)] else if m.startsWith "t" then [(r, m, false)] else []
+  | .m1 r m (.mapkey _) => if m.startsWith "t" then [(r, m, false)] else []
+  | .m2 r m a .union =>
+      let argEmpty := match mapArg d a with | some x => x.isEmpty | none => true
+      if argEmpty then [(r, m, true)]
+      else if m.startsWith "t" then (r, m, false) :: (match a with | some x => [(r, x, false)] | none => []) else []
+  | .m2 r m _ .inter => if m.startsWith "t" then [(r, m, false)] else []
+  | .m2 r m a .minus =>
+      let argEmpty := match mapArg d a with | some x => x.isEmpty | none => true
+      if argEmpty then [(r, m, true)] else if m.startsWith "t" then [(r, m, false)] else []
+  | .tset t _ (some s) => [(t, s, false)]
+  | .tget r t _ => [(r, t, false)]
+  | _ => []
 
 def receiverOf : Op → Option String
   | .wr a _ _ => some a
@@ -234,13 +289,20 @@ def expectMut (d : List (String × SV)) : Op → Option SV
   | _ => none
 
 /-- check one step; `none` = fine -/
-def checkStep (iface : Bool) (op : Op) (edges : List (String × String)) (prev cur : List (String × SV)) (res : String) :
-    Option String :=
-  if res == "bad-ref" || res == "bad-op" then
+def checkStep (iface : Bool) (op : Op) (edges : List (String × String × Bool)) (prev cur : List (String × SV))
+    (res : String) : Option String :=
+  if (res.splitOn "!arg-disturbed").length > 1 then
+    -- harness monitor: the Go map handed to `StreamSetFromMap` (an argument) no longer holds what the caller
+    -- put there, although only library operations ran on the stream set
+    some "the map passed to StreamSetFromMap was changed by the library (arguments must be left as they were)"
+  else if res == "bad-ref" || res == "bad-op" then
     if cur == prev then none else some "a refused operation changed something"
   else if op.isMutator iface then
     let recv := (receiverOf op).getD ""
-    let may := reach edges (edges.length + 1) [recv]
+    -- `Set` writes a map object: only handles that may BE the receiver may change with it
+    let mapMut := match op with | .mset .. => true | .tset .. => true | _ => false
+    let es := (edges.filter (fun e => !mapMut || e.2.2)).map (fun e => (e.1, e.2.1))
+    let may := reach es (es.length + 1) [recv]
     match prev.find? (fun e => !may.contains e.1 && (get cur e.1) != some e.2) with
     | some e => some s!"{e.1} changed although it cannot share storage with the mutated {recv}"
     | none =>
@@ -271,14 +333,14 @@ def judgeCase (line impl : String) : String :=
   let (iface, toks) := parseCase line
   let steps := (impl.splitOn " | ").map parseStep
   if steps.length != toks.length then "violation malformed observation (steps missing: crash or hang)" else
-  let rec go (ops : List Op) (steps : List (String × List (String × SV))) (edges : List (String × String))
+  let rec go (ops : List Op) (steps : List (String × List (String × SV))) (edges : List (String × String × Bool))
       (prev : List (String × SV)) (i : Nat) : String :=
     match ops, steps with
     | op :: ops', (res, cur) :: steps' =>
       match checkStep iface op edges prev cur res with
       | some why => s!"violation step {i}: {why}"
       | none =>
-        let edges' := if res == "ok" then shareEdges iface op ++ edges else edges
+        let edges' := if res == "ok" then shareEdges iface prev op ++ edges else edges
         go ops' steps' edges' cur (i + 1)
     | _, _ => "allowed every step satisfies persistence and the prescribed contents (model differs)"
   go (toks.map parseOp) steps [] [] 0
